@@ -487,6 +487,8 @@ func (ev *Evaluator) evalPath(p *jast.Path, in Value, env *Env) (Value, *Err) {
 			return !outer
 		case *jast.Pred:
 			return anchored(s.X, false)
+		case *jast.Group:
+			return anchored(s.X, false)
 		case *jast.Sort:
 			// an order-by sorts the whole sequence selected by the steps to
 			// its left (they are inside the node): it is evaluated once
